@@ -210,6 +210,44 @@ func corpus() []*Scenario {
 		out = append(out, sc)
 	}
 
+	// the engine's limits on what a result keeps: the input is cut to MaxTemplateChars (default 10000) with an ellipsis,
+	// the value to MaxResultChars, the operand of the segment is not cut; operands of 9999 / 10000 / 10001 characters
+	for _, n := range []int{9999, 10000, 10001} {
+		sc = base("switch")
+		std(sc, 4)
+		sc.Default, sc.TriggerText, sc.InputRepeat = 3, "a", n
+		cs(sc, "has_text", 0)
+		out = append(out, sc)
+	}
+	// ... small limits: room for the ellipsis (9), exactly the ellipsis (3), no room (2), zero, negative
+	for _, lim := range []int{9, 3, 2, 0, -1} {
+		sc = base("switch")
+		std(sc, 4)
+		sc.Default, sc.MaxTemplate, sc.MaxTemplateZero = 3, lim, lim == 0
+		cs(sc, "has_number", 2)
+		out = append(out, sc)
+	}
+	// an extra of 10000 bytes or more is dropped: has_pattern's extra is {"0":"<match>"} = match + 8 bytes; 9991
+	// characters are kept, 9992 dropped; 5000 two-byte characters are dropped although fewer than 10000 characters
+	for _, n := range []int{9991, 9992} {
+		sc = base("switch")
+		std(sc, 4)
+		sc.Default, sc.TriggerText, sc.InputRepeat = 3, "a", n
+		cs(sc, "has_pattern", 0, "^.*$")
+		out = append(out, sc)
+	}
+	sc = base("switch")
+	std(sc, 4)
+	sc.Default, sc.TriggerText, sc.InputRepeat = 3, "é", 5000
+	cs(sc, "has_pattern", 0, "^.*$")
+	out = append(out, sc)
+	// an operand too large to be converted to text (an array over MaxRenderSize, 10^6; a text is its own rendering whatever
+	// its length): its text is empty - value, input and segment operand of the default category are "", an error event is logged
+	sc = base("switch")
+	std(sc, 4)
+	sc.Default, sc.TriggerText, sc.InputRepeat, sc.Operand = 3, "0123456789,", 100001, "@(split(input.text, \",\"))"
+	out = append(out, sc)
+
 	// previous result under the same key with the same value and category: saved again, no event
 	sc = base("switch")
 	std(sc, 4)
